@@ -3,7 +3,7 @@ import numpy as np
 
 
 def make_ds(ipp, iop, rows, cols, spacing, pixels, meta=None, bits_stored=16, signed=False,
-            slope=None, intercept=None, with_pixels=True, uid='1.2.3'):
+            slope=None, intercept=None, with_pixels=True, uid='1.2.3', bits_allocated=16):
     import pydicom
     from pydicom.dataset import Dataset, FileMetaDataset
     from pydicom.uid import ExplicitVRLittleEndian
@@ -28,7 +28,7 @@ def make_ds(ipp, iop, rows, cols, spacing, pixels, meta=None, bits_stored=16, si
     ds.Columns = int(cols)
     ds.SamplesPerPixel = 1
     ds.PhotometricInterpretation = 'MONOCHROME2'
-    ds.BitsAllocated = 16
+    ds.BitsAllocated = int(bits_allocated)
     ds.BitsStored = int(bits_stored)
     ds.HighBit = int(bits_stored) - 1
     ds.PixelRepresentation = 1 if signed else 0
@@ -36,9 +36,12 @@ def make_ds(ipp, iop, rows, cols, spacing, pixels, meta=None, bits_stored=16, si
         ds.RescaleSlope = slope
         ds.RescaleIntercept = intercept if intercept is not None else 0
     if with_pixels:
-        arr = np.asarray(pixels, dtype=np.int16 if signed else np.uint16).reshape(rows, cols)
+        if bits_allocated == 8:
+            arr = np.asarray(pixels, dtype=np.int8 if signed else np.uint8).reshape(rows, cols)
+        else:
+            arr = np.asarray(pixels, dtype=np.int16 if signed else np.uint16).reshape(rows, cols)
         ds.PixelData = arr.tobytes()
-        ds['PixelData'].VR = 'OW'
+        ds['PixelData'].VR = 'OB' if bits_allocated == 8 else 'OW'
     for k, v in (meta or {}).items():
         if v is None:
             continue
